@@ -20,6 +20,7 @@ def main(tier, replay=None):
     th = [] if q else ["thorough=1"]
     fams = [dict(scn="c17", name="inject-" + f, opts=["family=" + f] + th, bounds="0,0,0,0", total=0, deadline=1500) for f in ("lists", "fields", "senders")]
     fams.append(dict(scn="c17", name="inject-lists-QMAILINJECT-cfi", opts=["family=fields", "qmailinject=cfi"], bounds="0,0,0,0", total=0))
+    fams.append(dict(scn="c17", name="inject-control-file-errors", opts=["family=senders"], bounds="0,1,0,0", total=1, deadline=1500))
     run_families(res, "C17", tier, fams)
     res.rule = ("round trips: every local part of length <=4 (5) over 23 bytes {()<>@,;:\\\\\".[] SP CR TAB 0x80 0xFF a B 1 + -} with domains h.dom and "
                 "[1.2.3.4]: quote2() -> To: field -> token822_parse/addrlist/unquote, and addrmangle() (qmail-remote) -> MAIL FROM:<...> -> "
